@@ -165,7 +165,14 @@ def run_stream_zip(ts, op):
             s["data"] = se["source"]["data"]
         except Exception:  # noqa: BLE001
             pass
-        gens.append(iter(ge.enum(se)))
+        try:
+            gens.append(iter(ge.enum(se)))
+        except (SimCancelled, SimKilled):
+            ctx.obs = None
+            raise
+        except Exception as e:  # noqa: BLE001
+            s["status"], s["error"] = "foreign", [type(e).__name__, str(e)]
+            gens.append(None)
     live = [i for i, g in enumerate(gens) if g is not None]
     pos = 0
     while live:
@@ -238,7 +245,16 @@ def run_stream(ts, op):
             s["data"] = se["source"]["data"]
         except Exception:  # noqa: BLE001
             pass
-        g = iter(ge.enum(se))
+        try:
+            g = iter(ge.enum(se))  # an implementation may do work (and fail) already when the iterator is requested
+        except (SimCancelled, SimKilled):
+            ctx.obs = None
+            raise
+        except Exception as e:  # noqa: BLE001
+            s["status"], s["error"] = "foreign", [type(e).__name__, str(e)]
+            ctx.obs = None
+            s["d1"] = len(ctx.draws)
+            continue
         try:
             while True:
                 if budget is not None and taken >= budget:
